@@ -40,6 +40,11 @@ def model_layer(run, tier):
         if res.violated:
             raise MachineryError("design model SBC.tla violates %s in simulation N=4" % res.violated)
         run.add_model(res, "SBC_sim4: random behaviours for N=4 atoms")
+        # exhaustive N=4 is ~1e8+ states: bounded by time, reported as far as it got (BFS, so all shallow behaviours first)
+        res = tlc.run("SBC.tla", "SBC_mc4.cfg", timeout=1500, must_pass=False, heap="24g")
+        if res.violated:
+            raise MachineryError("design model SBC.tla violates %s at N=4" % res.violated)
+        run.add_model(res, "SBC_mc4: breadth-first exploration for N=4 atoms (%s)" % ("complete" if res.rc == 0 else "stopped by the time limit"))
 
 
 def replay_layer(run, recs, d):
